@@ -54,6 +54,17 @@ def run(ctx: Ctx):
                 ctx.violation(seeds[tid], ["C05:seeds_" + c for c in failed], "",
                               what=f"task={seeds[tid]['tag']} scores={seeds[tid]['vin']['scores'][:8]} "
                                    f"count={seeds[tid]['vin']['count']} chosen={seeds[tid]['obs']}")
+    # ---- the second pass is bound to Fragments.tla: predicted fragments vs the tasks the workers really received
+    fl = [x for rr, ln in zip(res, lines) if ln is not None for x in file_common.second_pass_lines(rr["summary"])]
+    if fl:
+        v3, r3 = batch.validate("Trace_Fragments", "Trace_Fragments.cfg", ctx.workdir,
+                                [{k: v for k, v in x.items() if k != "tag"} for x in fl], name="secondpass.ndjson")
+        ctx.add_traces(len(fl))
+        ctx.notes["second_pass_task_sets_compared"] = len(fl)
+        for tid, (failed, drift) in sorted(v3.items()):
+            if drift or failed:
+                ctx.add_drift(1, {"tag": fl[tid]["tag"], "row": fl[tid]["row"], "what": failed + drift,
+                                  "observed_tasks": [(o["shift"], len(o["x"])) for o in fl[tid]["obs"]]})
     ok = [ln for ln in lines if ln is not None]
     if ok:
         ctx.sample({"peaksCount": ok[0]["peaksCount"], "cands_of_first_query": ok[0]["cands"][:1],
